@@ -121,6 +121,8 @@ class Monitor:
         self.tmpdir = None
         self.undriven_args = set()
         self.templates = {}
+        self.answer_rows = []
+        self.forced_path = None
 
 
 M = Monitor()
@@ -331,7 +333,7 @@ def jsonable_args(args):
         elif isinstance(v, (list, tuple)):
             out[k] = [x if isinstance(x, (str, int, float, bool)) else repr(x) for x in v]
         else:
-            out[k] = repr(v)
+            out[k] = {'__repr__': repr(v)}
     return out
 
 
@@ -356,12 +358,13 @@ def judge_wellformed(opname, self, args, entries, note):
                 'class': type(self).__name__, 'op': opname, 'public': list(M.hub.public or ()),
                 'statement': e['text'], 'params': sorted(e['params']) if isinstance(e['params'], dict) else None,
                 'problem': msg, 'position': pos, 'values': note, 'args': jsonable_args(args),
-                'graph_id': getattr(self, 'graph_id', None)})
+                'graph_id': getattr(self, 'graph_id', None), 'answer_rows': M.answer_rows})
     return toks_list
 
 
 def differential(opname, fn, self, args, frame):
     ctx = M.ctx
+    M.answer_rows = [len(r) for r, _ in frame.get('answers', [])]
     direct = [e for e in frame.get('entries', []) if e['op'] == opname]
     if not direct:
         ctx.count('primitive-call-without-statement')
@@ -385,6 +388,8 @@ def differential(opname, fn, self, args, frame):
                   (sorted(map(str, v)) if isinstance(v, dict) else repr(v)))
               for k, v in args.items() if k in IDENT_ARGS}
     for i, (sname, path, cur) in enumerate(slots):
+        if M.forced_path is not None and list(path) != M.forced_path:
+            continue
         sig = (opname, L.re.sub(r'\s+', ' ', json.dumps(idents, sort_keys=True, default=str)), sname,
                path[2] if path[0] == 'dict' else None, type(self).__name__)
         if M.forced_values is not None:
@@ -437,7 +442,7 @@ def differential(opname, fn, self, args, frame):
                                       'benign_value': v0, 'value': vp, 'statement_benign': e0['text'],
                                       'statement': ep['text'], 'reason': bad[0], 'detail': bad[1],
                                       'args': jsonable_args(args), 'graph_id': getattr(self, 'graph_id', None),
-                                      'path': list(path)})
+                                      'path': list(path), 'answer_rows': M.answer_rows})
                     continue
                 ctx.count('clause:f-param-delivery')
                 for k in p0:
@@ -449,7 +454,8 @@ def differential(opname, fn, self, args, frame):
                                           'parameter': k, 'benign_value': v0, 'value': vp,
                                           'parameter_benign': p0[k], 'parameter_value': pp[k],
                                           'statement': ep['text'], 'args': jsonable_args(args),
-                                          'graph_id': getattr(self, 'graph_id', None), 'path': list(path)})
+                                          'graph_id': getattr(self, 'graph_id', None), 'path': list(path),
+                                          'answer_rows': M.answer_rows})
                         break
 
 
@@ -1049,7 +1055,7 @@ def run(ctx):
         return
     ctx.count('lexer-selftest')
     install(ctx)
-    ncases = ctx.pick(10, 20)
+    ncases = ctx.pick(10, 30)
     i = 0
     while i < ncases:
         # every shard sweeps all five classes first (deterministic, identical coverage table in every shard)
@@ -1076,6 +1082,8 @@ def replay(ctx, case):
     cls, name, fn, sig = M.primitives[opname]
     args = {}
     for k, v in (w.get('args') or {}).items():
+        if isinstance(v, dict) and '__repr__' in v:
+            continue        # not JSON-able (an enum ...): the default of the parameter is used
         if isinstance(v, dict) and '__graph__' in v:
             v = make('Neo4jPropertyGraph', v['__graph__'], imp)
         elif isinstance(v, dict) and '__comps__' in v:
@@ -1085,11 +1093,24 @@ def replay(ctx, case):
                 c = ComponentSliver()
                 c.resource_name, c.resource_model = dn, model
                 c.resource_type = ComponentType[ct] if ct and ct in ComponentType.__members__ else None
-                ci.add_device(c)
+                ci.devices[dn] = c
             v = ci
         args[k] = v
     if 'value' in w:
         M.forced_values = [w['value']]
+        M.forced_path = w.get('path')
+    rows_wanted = list(w.get('answer_rows') or [])
+
+    def responder(top, text, params, ordinal, _n=[0]):
+        # same NUMBER of records per statement as in the recorded execution (content shaped from the RETURN clause)
+        i = _n[0]
+        _n[0] += 1
+        want = rows_wanted[i] if i < len(rows_wanted) else 0
+        rows, keys = F.shaped_answer(text)
+        if want and not rows:
+            from collections import OrderedDict
+            rows = [OrderedDict((k, True) for k in (keys or ['value']))]
+        return [rows[0]] * want if rows else []
     if opname.startswith('importer.'):
         obj = imp
     else:
@@ -1098,6 +1119,7 @@ def replay(ctx, case):
             cname = [c for c, k in _classes().items() if issubclass(k, cls)][0]
         obj = make(cname, w.get('graph_id') or 'g', imp)
     M.hub.public = tuple(w.get('public') or ()) or None
+    M.hub.responder = responder
     try:
         getattr(obj, name)(**args)
     except Exception as e:
